@@ -599,6 +599,37 @@ fn doc_ticks(msgs: &[Msg]) -> Vec<i64> {
 
 const HUGE_CID: i32 = 1 << 17;
 
+/// The records end with FINISH, every PLAYER_DIFF/PLAYER_OLD/INPUT_DIFF refers to a player/input
+/// that exists, no player is created twice, client ids of table records are non-negative and the
+/// documentation's tick numbers stay within `i32`.
+fn stream_is_valid(msgs: &[Msg], doc_ticks: &[i64]) -> bool {
+    if !matches!(msgs.last(), Some(Msg::Finish)) {
+        return false;
+    }
+    if doc_ticks.iter().any(|t| *t > i32::MAX as i64) {
+        return false;
+    }
+    let mut players = std::collections::BTreeSet::new();
+    let mut inputs = std::collections::BTreeSet::new();
+    for m in msgs {
+        let ok = match m {
+            Msg::New(c, _, _) => *c >= 0 && players.insert(*c),
+            Msg::Diff(c, _, _) => players.contains(c),
+            Msg::Old(c) => *c >= 0 && players.remove(c),
+            Msg::InputNew(c, _) => {
+                inputs.insert(*c);
+                *c >= 0
+            }
+            Msg::InputDiff(c, _) => *c >= 0 && inputs.contains(c),
+            _ => true,
+        };
+        if !ok {
+            return false;
+        }
+    }
+    true
+}
+
 /// The property itself, evaluated on one reading of the implementation.
 fn oracle_structure(stream: &[u8], has_ex: bool, out: &Out, o: &mut Oracle, ctx: &str) {
     // 1. nesting, strictly increasing tick numbers, every other item inside a tick
@@ -667,6 +698,10 @@ fn oracle_structure(stream: &[u8], has_ex: bool, out: &Out, o: &mut Oracle, ctx:
     }
     if out.fin == "end" && item_ticks.len() != expected.len() {
         o.fail("C17/fewer-items-than-records", format!("{} items, {} records {}", item_ticks.len(), expected.len(), ctx));
+    }
+    // 2b. a stream that is complete and consistent by the documentation must be read to its end
+    if out.fin != "end" && out.fin != "err:Cb" && stream_is_valid(&msgs, &dt) {
+        o.fail("C17/valid-stream-rejected", format!("the stream is complete and consistent, the reader stops with `{}` after {} items {}", out.fin, out.evs.len(), ctx));
     }
     // 3. positions and inputs are the wrapping running sums of the recorded differences
     let mut pos: BTreeMap<i32, (i64, i64)> = BTreeMap::new(); // exact sums
@@ -776,6 +811,39 @@ fn oracle_structure(stream: &[u8], has_ex: bool, out: &Out, o: &mut Oracle, ctx:
     }
 }
 
+/// doc/teehistorian.md, "Header": the teehistorian UUID 699db17b-8efb-34ff-b1d8-da6f60c15dd1 as 16
+/// bytes, then a NUL-terminated JSON object whose `version` must be "1" or "2".  (The JSON itself is
+/// valid in every generated request; `ver` is the version it carries.)
+fn oracle_header(total: &[u8], ver: &str, out: &Out, failing: bool, o: &mut Oracle, frag: &str) {
+    const DOC_MAGIC: [u8; 16] = [0x69, 0x9d, 0xb1, 0x7b, 0x8e, 0xfb, 0x34, 0xff, 0xb1, 0xd8, 0xda, 0x6f, 0x60, 0xc1, 0x5d, 0xd1];
+    if failing && out.fin == "err:Cb" {
+        return;
+    }
+    let expected: Option<&str> = if total.len() < 16 {
+        Some("err:UnexpectedEnd")
+    } else if total[..16] != DOC_MAGIC {
+        Some("err:Header")
+    } else if !total[16..].contains(&0) {
+        Some("err:UnexpectedEnd")
+    } else if ver != "1" && ver != "2" {
+        Some("err:UnknownVersion")
+    } else {
+        None
+    };
+    match expected {
+        Some(e) => {
+            if out.fin != e || !out.evs.is_empty() {
+                o.fail("C17/header-framing", format!("frag={} expected `{}` and no items, got `{}`", frag, e, clip(&out.line)));
+            }
+        }
+        None => {
+            if out.header_version.is_none() {
+                o.fail("C17/header-framing", format!("frag={} a complete valid header was rejected: `{}`", frag, clip(&out.line)));
+            }
+        }
+    }
+}
+
 // ---------------------------------------------------------------------------------------------
 // runner
 
@@ -802,6 +870,9 @@ impl Runner for R {
                 // oracle: independent of the fragmentation; no panic; tick structure; sums
                 let whole = if ds.is_empty() && *op != "file" { Ok(None) } else { read_all(&total, &[]).map(Some) };
                 let failing = ds.contains(&FAIL);
+                if let Ok(a) = &r {
+                    oracle_header(&total, ver, a, failing, o, frag);
+                }
                 match (&r, &whole) {
                     (Ok(a), Ok(Some(b))) if failing => {
                         // a failing callback: its error after a prefix of the items, or no difference
